@@ -59,6 +59,10 @@ pub fn test(reg: &Reg, case: &Case, stats: Option<&mut Stats>) -> Verdict {
         );
         return Verdict::Violation(sig, json!({"what": why, "history": dv_core::trace::show_trace(&c.out.trace)}));
     }
+    if let Err(why) = &c.final_reports {
+        let sig = format!("C02|final-error-differs|root={}", e.ty.ctor());
+        return Verdict::Violation(sig, json!({"what": why, "history": dv_core::trace::show_trace(&c.out.trace)}));
+    }
     if let Err(why) = &c.visits {
         if why.starts_with("not-examined") {
             return Verdict::Violation(format!("C02|not-examined|root={}", e.ty.ctor()), json!({"what": why, "history": dv_core::trace::show_trace(&c.out.trace)}));
@@ -74,7 +78,7 @@ pub fn run(tier: Tier) -> i32 {
         "C02",
         tier,
         "cases = (modelled catalogue type incl. generated derive inputs, type-directed payload biased to >= 2 faults placed before/after/inside each other, no duplicate keys, both sources), all-Continue script; \
-         oracle: multiset of observed reports (kind, location, structured content / message matcher) == multiset predicted by the reference interpreter of the documented semantics, and every payload node the interpreter says must be examined was examined (OV); \
+         oracle: multiset of observed reports (kind, location, structured content / message matcher) == multiset predicted by the reference interpreter of the documented semantics, the reports held by the RETURNED error (by id) are the same multiset, and every payload node the interpreter says must be examined was examined (OV); \
          non-trivial = >= 2 predicted reports at >= 2 locations, or a structural fault next to other faults; distinct by (type, payload)",
         (2_000_000, 30_000_000),
         reg,
